@@ -910,6 +910,57 @@ func c08FeatureListLimits(r *run.Run) {
 		})
 }
 
+// extension records: three or four lookups that together exceed 64 KiB, so that all but the largest are
+// reached through extension subtables, for every mix of subtable kinds (the type of the extension
+// records has to be derived from the list) in GSUB and in GPOS
+func c08Extension(r *run.Run) {
+	r.Explore(explore.Config{Name: "C08.extension", Deadline: r.PartDeadline(0.3)},
+		"lookup lists of 3 lookups of 33..37 KiB each (more than 64 KiB together: extension records are needed), every combination of subtable kinds {single substitution 1.2, ligature 4.1, context 1} for GSUB and {single adjustment 1.2, pair 2.1, context 1} for GPOS, with and without a small fourth lookup in front: the list comes back intact",
+		func(c *explore.Ctx) {
+			gpos := c.Bool("gpos")
+			tp := gtab.Type(gtab.TypeGsub)
+			if gpos {
+				tp = gtab.TypeGpos
+			}
+			var ll gtab.LookupList
+			var desc []string
+			if c.Bool("small lookup in front") {
+				if gpos {
+					ll = append(ll, gen.MakeLookup(1, gen.Flags[0], gen.GposSimple[0].Sub()))
+				} else {
+					ll = append(ll, gen.MakeLookup(1, gen.Flags[0], gen.GsubSimple[0].Sub()))
+				}
+				desc = append(desc, "small")
+			}
+			for i := 0; i < 3; i++ {
+				kind := c.Choose(3, "kind")
+				var st gtab.Subtable
+				var typ uint16
+				switch {
+				case kind == 2:
+					st, typ = c08BigSub(2, 3), 5
+					if gpos {
+						typ = 7
+					}
+					desc = append(desc, "context 1")
+				case !gpos:
+					st, typ = c08BigSub(kind, 2), []uint16{1, 4}[kind]
+					desc = append(desc, []string{"GSUB 1.2", "GSUB 4.1"}[kind])
+				case kind == 0:
+					st, typ, _ = c08Scaled(7, 5400)
+					desc = append(desc, "GPOS 1.2")
+				default:
+					st, typ, _ = c08Scaled(8, 4000)
+					desc = append(desc, "GPOS 2.1")
+				}
+				ll = append(ll, gen.MakeLookup(typ, gen.Flags[i%2*4], []gtab.Subtable{st}))
+			}
+			c.Sample(func() any { return desc })
+			c.Nontrivial()
+			c08RoundTripOnce(c, "extension records", c08Info(tp, ll), tp, desc)
+		})
+}
+
 func c08Sizes(r *run.Run) {
 	maxLookups := 2
 	if !r.Quick() {
@@ -1024,6 +1075,7 @@ func init() {
 		c08RangeLimits(r)
 		c08Gdef(r)
 		c08Lookups(r)
+		c08Extension(r)
 		c08SubtableLimit(r)
 		c08ListLimits(r)
 		c08FeatureListLimits(r)
